@@ -192,3 +192,45 @@ Proof.
                       (gen_GetStorageCostKbsWithPrice_model ppt jkl amount hours)).
 Qed.
 Print Assumptions C04_code_tie_price_functions.
+
+From JK Require Import Proofs.GoTiePost.
+
+(* the one-time-payment branch of the storage PostFile handler, generated from the current source as a whole: what is
+   written, the gauge opened with the providers' share, the creator charged the price for the kilobytes and hours the
+   model computes, the gauge funded with that same share -- in this order, refusals and panics where the model has
+   them; and the model's step is the interpretation of exactly these events with its bank's answers *)
+Theorem C04_code_tie_PostFile_one_time_payment :
+  forall window h size maxp expires ppt jkl refc polr creator_ok gauge_acc_ok ok_charge ok_fund found plan_over avail used,
+    0 < expires ->
+    gen_PostFile true window h size maxp expires ppt jkl refc polr creator_ok gauge_acc_ok ok_charge ok_fund found plan_over avail used
+    = payonce_events window h size maxp expires ppt jkl refc polr creator_ok gauge_acc_ok ok_charge ok_fund.
+Proof.
+  intros. rewrite gen_PostFile_spec. cbn [negb].
+  destruct (Z.ltb_spec 0 expires); [reflexivity|]. exfalso. apply (Z.lt_irrefl 0). eapply Z.lt_le_trans; eassumption.
+Qed.
+Print Assumptions C04_code_tie_PostFile_one_time_payment.
+
+Theorem C04_code_tie_model_post_file_interprets_the_events :
+  forall e m s window,
+    0 < pm_size m -> 0 < pm_maxproofs m -> pm_size m <= Z.quot int64_max (pm_maxproofs m) ->
+    pm_note_ok m = true -> 0 < pm_expires m -> pm_end_ok m = true ->
+    let cost := match storage_cost_kbs (e_ppt e) (e_jkl e) (payonce_kbs (pm_size m) (pm_maxproofs m))
+                        (payonce_hours (pm_expires m) (e_height e)) with Some c => c | None => 0 end in
+    let spc := dtrunc (dmul (dec cost) (dec 1 - dquo_int (dec (e_refc e)) 100 - dquo_int (dec (e_pol e)) 100)) in
+    let payer := AUser (pm_payer m) in
+    let k : gkey := (e_height e, pm_end_us m, spc) in
+    let b1 := send (s_bank s) payer AMod cost in
+    let b2 := match b1 with Some b => send b AMod (escrow k) spc | None => None end in
+    post_file e m s
+    = Some (match payonce_events window (e_height e) (pm_size m) (pm_maxproofs m) (pm_expires m)
+                    (e_ppt e) (e_jkl e) (e_refc e) (e_pol e) true true (is_some b1) (is_some b2) with
+            | GPanic => (Panic, s)
+            | GVal (_, false) => (Fail, s)
+            | GVal (_, true) =>
+                match b2 with
+                | Some b => (Ok, {| s_bank := b; s_gauges := new_gauge (s_gauges s) k spc; s_plans := s_plans s |})
+                | None => (Fail, s)
+                end
+            end).
+Proof. intros e m s window H1 H2 H3 H4 H5 H6. exact (storagepay_post_file_is_the_interpretation e m s H1 H2 H3 H4 H5 H6 window). Qed.
+Print Assumptions C04_code_tie_model_post_file_interprets_the_events.
